@@ -13,6 +13,7 @@ import (
 
 	"verif/codec"
 	"verif/model"
+	"verif/props/shared"
 	"verif/run"
 )
 
@@ -24,7 +25,7 @@ func init() {
 			"non-trivial = tree with >= 2 nodes, a non-XY coordinate type or an empty member; distinct by canonical WKB",
 		Assumptions:      []string{"bitwise tree comparison; the strict parser and the printer in verif/codec are written from the OGC WKT BNF; numerals are converted exactly with math/big"},
 		MinNontrivial:    500,
-		RequiredMonitors: []string{"roundtrip", "grammar", "shortest", "append-prefix", "respell", "trailing-token", "wkt-vs-wkb", "zero-value"},
+		RequiredMonitors: []string{"roundtrip", "grammar", "shortest", "append-prefix", "respell", "trailing-token", "wkt-vs-wkb", "zero-value", "concrete-entry"},
 		Run:              runAll,
 	})
 }
@@ -49,6 +50,7 @@ func checkTree(k *run.K, t model.Tree) {
 	if k.Lib("nopanic", func() { text = g.AsText() }) {
 		return
 	}
+	shared.ConcreteAgree(k, g, "concrete-entry", []shared.Call{{Method: "AsText"}, {Method: "AppendWKT", Args: []any{[]byte("prefix")}}, {Method: "String"}}, nil)
 	k.In("wkt", text)
 	// (a) round trip
 	var back geom.Geometry
